@@ -271,6 +271,16 @@ def run(ck):
             for f in ("branch", "extra", "index", "props", "mat", "ads"):
                 if before[f] != after[f]:
                     ck.fail_case({**sig, "clause": "untouched:" + f}, {"before": str(before[f])[:200], "after": str(after[f])[:200]})
+            # --- oracle 1b: a conversion to a valid representation, with every property it needs available, is not refused
+            if out != "ok" and complete and kind in ("P", "L", "M"):
+                if kind == "P":
+                    ok_args = len(a) == 2 and ((a[0] == "absolute" and a[1] in c01.PA) or (a[0] in ("relative", "relative%") and a[1] is None))
+                elif kind == "L":
+                    ok_args = len(a) == 2 and ((a[0] in c01.LTABLE and a[1] in c01.LTABLE[a[0]]) or (a[0] in ("fraction", "percent") and a[1] is None))
+                else:
+                    ok_args = len(a) == 2 and a[0] in c01.MTABLE and a[1] in c01.MTABLE[a[0]]
+                if ok_args:
+                    ck.fail_case({**sig, "clause": "conversion to a valid representation refused", "outcome": out}, {"labels": [str(x) for x in before["labels"]]})
             # --- oracle 2: refused single-quantity call changes nothing
             if out != "ok" and kind != "A":
                 if before != after:
@@ -284,6 +294,11 @@ def run(ck):
                      and lab[6] in ("K", "°C"))
             if not valid:
                 ck.fail_case({**sig, "clause": "labels no constructor accepts", "labels_after": [str(x) for x in lab]}, {"outcome": out})
+                break
+            # the labels name exactly that representation: the constructor stores no pressure unit for the relative modes
+            if lab[0] != "absolute" and lab[1] is not None:
+                ck.fail_case({**sig, "clause": "labels are not those the constructor stores for this representation", "label": "pressure_unit"},
+                             {"labels_after": [str(x) for x in lab], "outcome": out})
                 break
             if k == len(trace) - 1 and not constructor_accepts(w.pg, iso):
                 ck.fail_case({**sig, "clause": "constructor rejects to_dict()"}, {"labels": [str(x) for x in lab]})
